@@ -5413,17 +5413,17 @@ fn evaluate_scalar_func(
                 })?;
             let value_arr = &evaluated_args[1];
 
-            let result: BooleanArray = (0..json_arr.len())
+            let result = (0..json_arr.len())
                 .map(|i| {
                     if json_arr.is_null(i) {
-                        None
+                        Ok(None)
                     } else {
                         let json_str = json_arr.value(i);
-                        let search_value = get_scalar_value(value_arr, i);
-                        Some(json_array_contains_impl(json_str, &search_value))
+                        let search_value = get_scalar_value(value_arr, i)?;
+                        Ok(Some(json_array_contains_impl(json_str, &search_value)))
                     }
                 })
-                .collect();
+                .collect::<Result<BooleanArray>>()?;
             Ok(Arc::new(result))
         }
 
@@ -5599,17 +5599,18 @@ fn evaluate_scalar_func(
                 ));
             }
             let num_rows = evaluated_args[0].len();
-            let result: StringArray = (0..num_rows)
+            let result = (0..num_rows)
                 .map(|i| {
                     let mut obj = serde_json::Map::new();
                     for pair in evaluated_args.chunks(2) {
                         let key = get_string_value(&pair[0], i).unwrap_or_default();
-                        let value = get_json_value(&pair[1], i);
+                        let value = get_json_value(&pair[1], i)?;
                         obj.insert(key, value);
                     }
-                    Some(serde_json::to_string(&serde_json::Value::Object(obj)).unwrap_or_default())
+                    let text = serde_json::to_string(&serde_json::Value::Object(obj));
+                    Ok(Some(text.unwrap_or_default()))
                 })
-                .collect();
+                .collect::<Result<StringArray>>()?;
             Ok(Arc::new(result))
         }
 
@@ -5621,15 +5622,16 @@ fn evaluate_scalar_func(
                 return Ok(Arc::new(result));
             }
             let num_rows = evaluated_args[0].len();
-            let result: StringArray = (0..num_rows)
+            let result = (0..num_rows)
                 .map(|i| {
                     let arr: Vec<serde_json::Value> = evaluated_args
                         .iter()
                         .map(|arg| get_json_value(arg, i))
-                        .collect();
-                    Some(serde_json::to_string(&serde_json::Value::Array(arr)).unwrap_or_default())
+                        .collect::<Result<_>>()?;
+                    let text = serde_json::to_string(&serde_json::Value::Array(arr));
+                    Ok(Some(text.unwrap_or_default()))
                 })
-                .collect();
+                .collect::<Result<StringArray>>()?;
             Ok(Arc::new(result))
         }
 
@@ -6234,28 +6236,37 @@ fn json_values_equal(a: &serde_json::Value, b: &serde_json::Value) -> bool {
 }
 
 /// Get a JSON value from an array at a given row index
-fn get_json_value(arr: &ArrayRef, row: usize) -> serde_json::Value {
+fn get_json_value(arr: &ArrayRef, row: usize) -> Result<serde_json::Value> {
     if arr.is_null(row) {
-        return serde_json::Value::Null;
+        return Ok(serde_json::Value::Null);
     }
 
     if let Some(str_arr) = arr.as_any().downcast_ref::<StringArray>() {
-        return serde_json::Value::String(str_arr.value(row).to_string());
+        return Ok(serde_json::Value::String(str_arr.value(row).to_string()));
     }
     if let Some(int_arr) = arr.as_any().downcast_ref::<Int64Array>() {
-        return serde_json::json!(int_arr.value(row));
+        return Ok(serde_json::json!(int_arr.value(row)));
     }
     if let Some(int_arr) = arr.as_any().downcast_ref::<Int32Array>() {
-        return serde_json::json!(int_arr.value(row));
+        return Ok(serde_json::json!(int_arr.value(row)));
     }
     if let Some(float_arr) = arr.as_any().downcast_ref::<arrow::array::Float64Array>() {
-        return serde_json::json!(float_arr.value(row));
+        return Ok(serde_json::json!(float_arr.value(row)));
     }
     if let Some(bool_arr) = arr.as_any().downcast_ref::<BooleanArray>() {
-        return serde_json::Value::Bool(bool_arr.value(row));
+        return Ok(serde_json::Value::Bool(bool_arr.value(row)));
     }
 
-    serde_json::Value::Null
+    // Every other type (Int16, Float32, Decimal128, Date32, Timestamp,
+    // LargeUtf8, ...): numbers stay JSON numbers, the rest is rendered as
+    // text. Falling through to `null` silently lost the value.
+    let text = arrow::util::display::array_value_to_string(arr, row)?;
+    if arr.data_type().is_numeric() {
+        if let Ok(number) = serde_json::from_str::<serde_json::Number>(&text) {
+            return Ok(serde_json::Value::Number(number));
+        }
+    }
+    Ok(serde_json::Value::String(text))
 }
 
 /// Get a string value from an array at a given row index
@@ -6276,28 +6287,41 @@ fn get_string_value(arr: &ArrayRef, row: usize) -> Option<String> {
 }
 
 /// Get a scalar value from an array at a given row index
-fn get_scalar_value(arr: &ArrayRef, row: usize) -> ScalarValue {
+fn get_scalar_value(arr: &ArrayRef, row: usize) -> Result<ScalarValue> {
     if arr.is_null(row) {
-        return ScalarValue::Null;
+        return Ok(ScalarValue::Null);
     }
 
     if let Some(str_arr) = arr.as_any().downcast_ref::<StringArray>() {
-        return ScalarValue::Utf8(str_arr.value(row).to_string());
+        return Ok(ScalarValue::Utf8(str_arr.value(row).to_string()));
     }
     if let Some(int_arr) = arr.as_any().downcast_ref::<Int64Array>() {
-        return ScalarValue::Int64(int_arr.value(row));
+        return Ok(ScalarValue::Int64(int_arr.value(row)));
     }
     if let Some(int_arr) = arr.as_any().downcast_ref::<Int32Array>() {
-        return ScalarValue::Int32(int_arr.value(row));
+        return Ok(ScalarValue::Int32(int_arr.value(row)));
     }
     if let Some(float_arr) = arr.as_any().downcast_ref::<arrow::array::Float64Array>() {
-        return ScalarValue::Float64(ordered_float::OrderedFloat(float_arr.value(row)));
+        return Ok(ScalarValue::Float64(ordered_float::OrderedFloat(
+            float_arr.value(row),
+        )));
     }
     if let Some(bool_arr) = arr.as_any().downcast_ref::<BooleanArray>() {
-        return ScalarValue::Boolean(bool_arr.value(row));
+        return Ok(ScalarValue::Boolean(bool_arr.value(row)));
     }
 
-    ScalarValue::Null
+    // Every other type: same rendering as JSON_ARRAY / JSON_OBJECT. A
+    // fabricated NULL here "found" the JSON null element and missed every
+    // real value.
+    match get_json_value(arr, row)? {
+        serde_json::Value::Number(n) => Ok(ScalarValue::Float64(ordered_float::OrderedFloat(
+            n.as_f64().unwrap_or(f64::NAN),
+        ))),
+        serde_json::Value::String(s) => Ok(ScalarValue::Utf8(s)),
+        other => Err(QueryError::Internal(format!(
+            "unexpected JSON scalar {other}"
+        ))),
+    }
 }
 
 #[cfg(test)]
